@@ -64,3 +64,13 @@ Proof.
   destruct src_closers_release as (R1 & R2 & R3 & R4 & R5).
   cbn in Hin. destruct Hin as [<-|[<-|[<-|[<-|[<-|[]]]]]]; apply handoff_no_deadlock; assumption.
 Qed.
+
+(* a SUB in progress against the closing / deletion of its channel *)
+Theorem subscriber_closed_or_refused ks sched m (del : bool) :
+  forallb locked ks = true ->
+  In m (movers (run (init ks (channel_closer_clients (path_of del shape_Channel_exit))) sched)) ->
+  lost (run (init ks (channel_closer_clients (path_of del shape_Channel_exit))) sched) m = false.
+Proof.
+  intros Hk. destruct src_channel_exit_closes_clients_in_order as (A & B).
+  destruct del; [rewrite B|rewrite A]; intros Hin; apply handoff_safe; [exact Hk|exact channel_exit_ok|exact Hin|exact Hk|exact channel_exit_ok|exact Hin].
+Qed.
